@@ -173,8 +173,12 @@ def run_property(pid, tier, seed):
     base = load_baseline(pid)
     missing = []
     if base is not None:
-        have = {o.oid for o in obs}
-        missing = [oid for oid in base.get("core", []) if oid not in have]
+        # per function under contract: it must still generate obligations (ids of single obligations are NOT compared: path suffixes
+        # change under harmless edits); a function that lost all of them is reported as undecided, never as a violation
+        have = {}
+        for o in obs:
+            have[o.fn] = have.get(o.fn, 0) + 1
+        missing = [f"{fn} (baseline {n} obligations, now 0)" for fn, n in sorted(base.get("functions", {}).items()) if have.get(fn, 0) == 0]
     n_known = len(known_hits)
     n_ob = len(obs)
     n_dis = sum(1 for r in results if r["verdict"] == "discharged")
@@ -287,8 +291,10 @@ def write_baseline(pid, obs, results):
     p = os.path.join(VERIF, "baseline", "obligations.json")
     os.makedirs(os.path.dirname(p), exist_ok=True)
     data = json.load(open(p)) if os.path.exists(p) else {}
-    data[pid] = dict(core=sorted(o.oid for o in obs if not o.meta.get("auto")),
-                     count=len(obs), verdicts={o.oid: r["verdict"] for o, r in zip(obs, results) if r["verdict"] != "discharged"})
+    fns = {}
+    for o in obs:
+        fns[o.fn] = fns.get(o.fn, 0) + 1
+    data[pid] = dict(functions=fns, count=len(obs), not_discharged={o.oid: r["verdict"] for o, r in zip(obs, results) if r["verdict"] != "discharged"})
     json.dump(data, open(p, "w"), indent=1, sort_keys=True)
 
 
